@@ -57,7 +57,7 @@ def writeCellTree (x : Ext) (c : XC) : CellTree :=
       ++ (if c.v ≠ [] then [Kid.leaf { name := lit "v", attrs := [], text := c.v }] else [])
       ++ (match c.is with
         | .none => []
-        | .runs xml => if xml ≠ [] then [Kid.is [IsKid.runs xml]] else []
+        | .runs xml => [Kid.is (if xml ≠ [] then [IsKid.runs xml] else [])]
         | .text val sp => [Kid.is [IsKid.t { name := lit "t", attrs := spaceAttrs sp, text := x.bstr val }]]) }
 
 /-- the element `encoding/xml` marshals for the `xlsxC` holding the same record
@@ -76,12 +76,9 @@ def marshalTree (x : Ext) (c : XC) : CellTree :=
         | .runs xml => [Kid.is (if xml ≠ [] then [IsKid.runs xml] else [])]
         | .text val sp => [Kid.is [IsKid.t { name := lit "t", attrs := spaceAttrs sp, text := x.bstr val }]]) }
 
-/-- the record a decoder (`xml.Unmarshal` into `xlsxC`) gets from what `writeCell` wrote:
-the only thing lost is an inline-string part that was not written at all (no runs) -/
-def reparse (c : XC) : XC :=
-  match c.is with
-  | .runs xml => if xml = [] then { c with is := .none } else c
-  | _ => c
+/-- the record a decoder (`xml.Unmarshal` into `xlsxC`) gets from what `writeCell` wrote: nothing is lost
+(an inline-string part without content is written as an empty element since the repair of `writeCell`) -/
+def reparse (c : XC) : XC := c
 
 /-- serialisation of the tree with the two text escapers of the stream writer
 (`xml.EscapeText` for `f`/`v`, escape-then-keep-line-feeds for the inline `t`) -/
